@@ -11,7 +11,7 @@
                     over m (ideal signatures: unforgeability, one meaning per byte string). *)
 From Coq Require Import List String Bool NArith ZArith.
 Import ListNotations.
-From VF Require Import common.Json gen.Gen_C07 C07.Model C07.Proofs C07.ProofsRT C07.StrictModel C07.ProofsStrict C07.ParseModel C07.ProofsParse C07.ProofsVP.
+From VF Require Import common.Json gen.Gen_C07 C07.Model C07.Proofs C07.ProofsRT C07.StrictModel C07.ProofsStrict C07.ParseModel C07.ProofsParse C07.ProofsVP C07.ProofsDI.
 Open Scope string_scope.
 Open Scope list_scope.
 
@@ -104,6 +104,40 @@ Theorem verify_sign_detached_jws :
       (add_proof d (signed_proof c t)) = Verified 1.
 Proof. exact verify_sign_jws. Qed.
 Print Assumptions verify_sign_detached_jws.
+
+(* the same for Data Integrity ecdsa-2019.  Signing (ecdsa2019.CreateProof + Signer.AddProof): the message is
+   (canonical document, canonical configuration of the proof being built), the proof object carries created as formatted
+   by the signer (so re-formatting leaves it unchanged), domain / challenge when non-empty, and replaces the proof
+   member.  If the signer returned a byte string whose multibase text means "signature by k over that message", the
+   DID document lists k under the verification method for the purpose the verifier expects, and the verifier expects
+   no or the same domain / challenge, then the signed document verifies with exactly that one proof. *)
+Theorem verify_sign_data_integrity :
+  forall canon di_time_ok di_time_norm di_suite_ok di_resolve di_sig
+         mem d vm purpose created domain challenge sigtext k m e2 e3,
+    nonempty vm = true -> nonempty purpose = true ->
+    di_time_ok created = true -> di_time_norm created = created -> di_suite_ok "ecdsa-2019" = true ->
+    (nonempty e2 = false \/ e2 = domain) -> (nonempty e3 = false \/ e3 = challenge) ->
+    di_resolve vm purpose = Some k ->
+    di_sign_message canon mem d vm purpose created domain challenge = Some m ->
+    di_sig sigtext = DSig (SBy k m) ->
+    let pr := di_proof_obj vm purpose created domain challenge sigtext in
+    verify_di canon di_time_ok di_time_norm di_suite_ok di_resolve di_sig (purpose, e2, e3) mem (di_add_proof d pr) (JObj pr)
+      = Verified 1.
+Proof. exact di_verify_sign. Qed.
+Print Assumptions verify_sign_data_integrity.
+
+(* the configuration signed is the one the verifier rebuilds, and the proof object is what check_embedded sees first *)
+Example verify_sign_data_integrity_nonvacuous :
+  let d := [("@context", JStr "ctx"); ("claim", JStr "v")] in
+  let pr := di_proof_obj "did:x#k" "assertionMethod" "2021-01-01T00:00:00Z" "shop.example" "" "zSIG" in
+  let cn := fun j => if json_eqb j (JObj d) then Some 1%N
+                     else match j with JObj m => match lookup m "cryptosuite" with Some _ => Some 2%N | None => None end | _ => None end in
+  di_sign_message cn di_config_members d "did:x#k" "assertionMethod" "2021-01-01T00:00:00Z" "shop.example" "" = Some (MDI 1%N 2%N) /\
+  lookup (di_add_proof d pr) "proof" = Some (JObj pr) /\
+  verify_di cn (fun _ => true) (fun s => s) (fun s => String.eqb s "ecdsa-2019") (fun _ _ => Some 9%N)
+    (fun t => if String.eqb t "zSIG" then DSig (SBy 9%N (MDI 1%N 2%N)) else DErr) ("assertionMethod", "", "")
+    di_config_members (di_add_proof d pr) (JObj pr) = Verified 1.
+Proof. vm_compute. repeat split. Qed.
 
 (* ---- documents and proof sets: an accepted document has a proof member, every entry of it decodes into a typed
         proof carrying the received members, and EVERY entry verifies (the count is the number of entries) ---- *)
